@@ -60,22 +60,46 @@ def pr(ns, escd=False):
 
 
 # ---------------------------------------------------------------------------
-# values:  {"s": str} | {"i": int} | {"b": bool} | {"l": [item]};  item: str | {"d": [[k, v], ...]}
+# values:  {"s": str} | {"i": int} | {"b": bool} | {"n": None} | {"f": float} | {"l": [item]} | {"t": [item]} (tuple)
+# item:    str | {"d": [[k, v], ...]} | {"i": int} | {"b": bool} | {"n": None} | {"f": float} | {"t": [atom]} (tuple)
 # ---------------------------------------------------------------------------
+def py_atom(a):
+    if "i" in a:
+        return int(a["i"])
+    if "b" in a:
+        return bool(a["b"])
+    if "n" in a:
+        return None
+    if "f" in a:
+        return float(a["f"])
+    if "t" in a:
+        return tuple(py_atom(x) for x in a["t"])
+    raise ValueError(a)
+
+
 def py_item(it, escd=False):
     if isinstance(it, str):
         return esc(it) if escd else it
-    return {k: (esc(v) if escd else v) for k, v in it["d"]}
+    if "d" in it:
+        return {k: (esc(v) if escd else v) for k, v in it["d"]}
+    return py_atom(it)
 
 
 def py_value(v, escd=False):
     if "s" in v:
         return esc(v["s"]) if escd else v["s"]
-    if "i" in v:
-        return int(v["i"])
-    if "b" in v:
-        return bool(v["b"])
-    return [py_item(it, escd) for it in v["l"]]
+    if "l" in v:
+        return [py_item(it, escd) for it in v["l"]]
+    if "t" in v:
+        return tuple(py_item(it, escd) for it in v["t"])
+    return py_atom(v)
+
+
+def seq_items(v):
+    """the items when the value is a list or a tuple, else None"""
+    if v is None:
+        return None
+    return v["l"] if "l" in v else (v["t"] if "t" in v else None)
 
 
 def py_ctx(ctx, escd=False):
@@ -108,7 +132,7 @@ def apply_filter(f, pv):
     if f == "trim":
         return str(pv).strip()
     if f == "length":
-        if isinstance(pv, (str, list)):
+        if isinstance(pv, (str, list, tuple)):
             return str(len(pv))
         raise RefTypeError()
     raise ValueError("filter not modelled: " + f)
@@ -168,10 +192,9 @@ def ref_render(templates, main, ctx, strict=False):
                 br = n[3] if (c in C and truthy(C[c])) else (n[4] or [])
                 out.append(leaves(br, None, depth))
             elif n[0] == "E":
-                v = C.get(n[2])
-                if v is None or "l" not in v:
+                items = seq_items(C.get(n[2]))
+                if items is None:
                     continue
-                items = v["l"]
                 for i, it in enumerate(items):
                     pit = py_item(it)
                     lc = {".": str(pit), "item": str(pit), "index": str(i),
@@ -394,7 +417,7 @@ SAFE_STR = ["Alice", "bob smith", " padded ", "", "0", "MiXed Case", "x-y_z", "a
 DEFAULTS = ["dflt", "no name", "N/A", "a b", "-", "nofilter", "0", " ", "x|y", "Upper"]
 DICT_KEYS = ["name", "id", "item", "index", "k", "first", "x"]
 WS = [" ", " ", " ", "  ", "\t", "\n ", " \t"]
-ADV = ["{{y}}", "{{?y}}", "{{y|upper}}", "{{y|d e}}", "{{b|zz}}", "{{>t1}}", "{{>nope}}", "{{#if a}}X{{/if}}",
+ADV = ["{", "}", "{", "}", "{y", "y}", "{{y}}", "{{?y}}", "{{y|upper}}", "{{y|d e}}", "{{b|zz}}", "{{>t1}}", "{{>nope}}", "{{#if a}}X{{/if}}",
        "{{#if a}}X{{#else}}Y{{/if}}", "{{#each xs}}{{.}}{{/each}}", "{{index}}", "{{item}}", "{{.}}", "{{last}}",
        "{{first}}", "{{name}}", "{{k}}", "}}", "{{", "{", "}", "a{{b", "{{/if}}", "{{#else}}", "{{/each}}",
        "{{x}}", "{{m1}}", "{{n1|length}}", "{{x|trim}}", "{{?m2}}", "{{m2|gone}}", "{{#each ys}}", "{{#if flag}}"]
@@ -478,8 +501,16 @@ class Gen:
                 out += self.leaves(1, 1, False, incl)
         return out
 
+    def atom(self):
+        r = self.r
+        return r.choice([{"i": 1}, {"b": True}, {"f": 1.0}, {"i": 0}, {"b": False}, {"f": 0.0}, {"f": -0.0},
+                         {"n": None}, {"i": 42}, {"f": 2.5}, {"t": [{"i": 1}]}, {"t": [{"b": True}]},
+                         {"t": [{"i": 0}, {"f": 0.0}]}, {"t": []}])
+
     def item(self):
         r = self.r
+        if r.random() < 0.25:
+            return self.atom()
         if r.random() < 0.6:
             return self.string()
         keys = r.sample(DICT_KEYS, r.randint(0, 3))
@@ -496,7 +527,18 @@ class Gen:
             return {"i": r.choice([0, 1, 42, -7, 100000])}
         if k < 0.67:
             return {"b": r.random() < 0.5}
-        return {"l": [self.item() for _ in range(r.choice([0, 1, 1, 2, 2, 3]))]}
+        if k < 0.71:
+            return r.choice([{"n": None}, {"f": 1.0}, {"f": -0.0}, {"f": 2.5}, {"f": 0.0}])
+        if k < 0.80:
+            # items that compare equal (==, hash) but print differently
+            items = r.choice([[{"i": 1}, {"b": True}, {"f": 1.0}], [{"i": 0}, {"b": False}, {"f": 0.0}, {"f": -0.0}],
+                              [{"t": [{"i": 1}]}, {"t": [{"b": True}]}], [{"b": True}, {"i": 1}, "1"],
+                              [{"f": -0.0}, {"f": 0.0}, {"n": None}]])
+            items = list(items)
+            r.shuffle(items)
+            return {r.choice(["l", "l", "t"]): items}
+        kind = "t" if r.random() < 0.15 else "l"
+        return {kind: [self.item() for _ in range(r.choice([0, 1, 1, 2, 2, 3]))]}
 
     def case(self):
         r = self.r
@@ -509,6 +551,45 @@ class Gen:
         ctx = [[v, self.value(v)] for v in VARS if r.random() < 0.6]
         return {"templates": templates, "main": main, "ctx": ctx,
                 "strict": r.random() < 0.12, "phase": "adv" if self.adv else "free"}
+
+    def registry_history(self, c):
+        """2..6 operations mixing registrations (create / register / register under another name, with an
+        mRNA whose own .name may be any registered name; re-registration with different text), translate
+        by name (registered or not), translate of unregistered mRNA objects (own .name possibly a registered
+        name, text possibly plain) and synthesize; the includer of the touched names is rendered last"""
+        r = self.r
+        templates = [list(t) for t in c["templates"]] or [["t1", [["T", "Hi "], ["V", "name"], ["T", "!"]]]]
+        names = [n for n, _ in templates]
+        pool = names + ["t9", "alias"]
+        ops = []
+
+        def ctx():
+            return [[v, self.value(v)] for v in VARS if r.random() < 0.6]
+
+        def tpl(incl):
+            if r.random() < 0.35:
+                return [["T", r.choice(["plain text", "Welcome.", "-- footer --", "A"])]]
+            return self.nodes(r.randint(1, 2), incl)
+        for _ in range(r.randint(2, 5)):
+            k = r.random()
+            cur = sorted(set(names))
+            if k < 0.35:
+                how = r.choice(["create", "register", "register_as", "register_as"])
+                name = r.choice(pool)
+                own = name if how != "register_as" else r.choice(cur + ["other"])
+                ops.append({"op": "register", "name": name, "own": own, "how": how,
+                            "tpl": tpl([n for n in cur if n != name])})
+                names.append(name)
+            elif k < 0.55:
+                ops.append({"op": "translate", "name": r.choice(cur + ["nope"]), "ctx": ctx()})
+            elif k < 0.8:
+                ops.append({"op": "render_obj", "own": r.choice(cur + ["_x_"]), "main": tpl(cur), "ctx": ctx()})
+            else:
+                ops.append({"main": self.nodes(r.randint(1, 3), cur), "ctx": ctx()})
+        cur = sorted(set(names))
+        ops.append({"main": [["G", n] for n in r.sample(cur, min(len(cur), r.randint(1, 2)))] + self.leaves(0, 1, False, cur),
+                    "ctx": ctx()})
+        return {"templates": templates, "calls": ops, "strict": c["strict"], "phase": c["phase"]}
 
     def history(self):
         """1..4 calls on one instance; a fifth of the histories is built so that an early call raises
@@ -540,6 +621,8 @@ class Gen:
                 calls.insert(0, {"main": main, "ctx": good})
             return {"templates": templates, "calls": calls, "strict": kind == "strict-missing" or r.random() < 0.2,
                     "phase": phase}
+        if r.random() < 0.4:
+            return self.registry_history(c)
         k = r.choice([1, 1, 2, 2, 3, 4])
         if k == 1:
             return c
@@ -597,21 +680,27 @@ def value_free(v):
         return "{" not in s and "}" not in s
     if "s" in v:
         return sf(v["s"])
-    if "l" in v:
-        return all(sf(it) if isinstance(it, str) else all(sf(k) and sf(x) for k, x in it["d"]) for it in v["l"])
+    if seq_items(v) is not None:
+        return all(sf(it) if isinstance(it, str) else all(sf(k) and sf(x) for k, x in it.get("d", []))
+                   for it in seq_items(v))
     return True
 
 
+def value_free_ctx(ctx):
+    return all(value_free(v) for _k, v in ctx)
+
+
 def ctx_free(case):
-    return all(value_free(v) for _k, v in case["ctx"])
+    return value_free_ctx(case["ctx"])
 
 
 def value_clean(v):
     if "s" in v:
         return not has_sentinel(v["s"])
-    if "l" in v:
+    if seq_items(v) is not None:
         return all(not has_sentinel(it) if isinstance(it, str)
-                   else all(not has_sentinel(k) and not has_sentinel(x) for k, x in it["d"]) for it in v["l"])
+                   else all(not has_sentinel(k) and not has_sentinel(x) for k, x in it.get("d", []))
+                   for it in seq_items(v))
     return True
 
 
@@ -631,26 +720,61 @@ def parse_warning(w):
 
 
 def calls_of(case):
-    """the calls made on ONE Ribosome, in order: [{"main": ast, "ctx": ctx}, ...]"""
+    """the operations made on ONE Ribosome, in order.  An element is
+         {"main": ast, "ctx": ctx}                              synthesize(main, **ctx)
+         {"op": "render_obj", "own": name, "main", "ctx"}       translate(mRNA(main, name=own) NOT registered, **ctx)
+         {"op": "translate", "name": n, "ctx": ctx}             translate(n, **ctx)
+         {"op": "register", "name": n, "own": o, "how": h, "tpl": ast}
+              h = "create": create_template(tpl, n); "register": register_template(mRNA(tpl, name=n));
+              "register_as": register_template(mRNA(tpl, name=o), name=n)   (o may be another registered name)"""
     if "calls" in case:
         return case["calls"]
     return [{"main": case["main"], "ctx": case["ctx"]}]
 
 
+def is_render(op):
+    return op.get("op") in (None, "render_obj", "translate")
+
+
+def registry_at(case, k):
+    """the registered templates just before operation k, in dict order"""
+    reg = [[n, t] for n, t in case["templates"]]
+    for op in calls_of(case)[:k]:
+        if op.get("op") == "register":
+            for e in reg:
+                if e[0] == op["name"]:
+                    e[1] = op["tpl"]
+                    break
+            else:
+                reg.append([op["name"], op["tpl"]])
+    return reg
+
+
 def sub_case(case, k):
-    """call k of a history as a single-call case (same templates, same strict flag)"""
-    cl = calls_of(case)[k]
-    return {"templates": case["templates"], "strict": case["strict"], "phase": case.get("phase", "free"),
-            "main": cl["main"], "ctx": cl["ctx"]}
+    """render operation k of a history as a single-call case on the registry AS IT IS AT THAT MOMENT;
+    None for translate() of a name that is not registered"""
+    op = calls_of(case)[k]
+    reg = registry_at(case, k)
+    if op.get("op") == "translate":
+        hit = [t for n, t in reg if n == op["name"]]
+        if not hit:
+            return None
+        main = hit[0]
+    else:
+        main = op["main"]
+    return {"templates": reg, "strict": case["strict"], "phase": case.get("phase", "free"),
+            "main": main, "ctx": op["ctx"]}
 
 
-def _one_call(r, main_text, pctx):
+def _guard(fn):
     try:
-        p = common.call_with_watchdog(lambda: r.synthesize(main_text, **pctx), 5.0)
+        p = common.call_with_watchdog(fn, 5.0)
     except ValueError as e:
         msg = str(e)
         if msg.startswith("Missing required variable: "):
             return {"text": None, "warnings": [], "error": ("value", msg[len("Missing required variable: "):])}
+        if msg.startswith("Unknown template: "):
+            return {"text": None, "warnings": [], "error": ("unknown", msg[len("Unknown template: "):])}
         return {"text": None, "warnings": [], "error": ("other", type(e).__name__)}
     except TypeError:
         return {"text": None, "warnings": [], "error": ("type", "")}
@@ -664,13 +788,35 @@ def _one_call(r, main_text, pctx):
 
 
 def run_history(case, escd=False):
-    """every call of the history on ONE fresh Ribosome
-    -> [dict(text, warnings [(kind, name)], error None|(kind, name))]"""
-    from operon_ai.organelles.ribosome import Ribosome
+    """every operation of the history on ONE fresh Ribosome
+    -> per operation None (registration) | dict(text, warnings [(kind, name)], error None|(kind, name))"""
+    from operon_ai.organelles.ribosome import Ribosome, mRNA
     r = Ribosome(strict=case["strict"], silent=True)
     for name, ast in case["templates"]:
         r.create_template(pr(ast, escd), name)
-    return [_one_call(r, pr(cl["main"], escd), py_ctx(cl["ctx"], escd)) for cl in calls_of(case)]
+    out = []
+    for op in calls_of(case):
+        kind = op.get("op")
+        if kind == "register":
+            seq = pr(op["tpl"], escd)
+            if op["how"] == "create":
+                r.create_template(seq, op["name"])
+            elif op["how"] == "register":
+                r.register_template(mRNA(sequence=seq, name=op["name"]))
+            else:
+                r.register_template(mRNA(sequence=seq, name=op["own"]), name=op["name"])
+            out.append(None)
+        elif kind == "translate":
+            pctx = py_ctx(op["ctx"], escd)
+            out.append(_guard(lambda: r.translate(op["name"], **pctx)))
+        elif kind == "render_obj":
+            pctx = py_ctx(op["ctx"], escd)
+            m = mRNA(sequence=pr(op["main"], escd), name=op["own"])
+            out.append(_guard(lambda: r.translate(m, **pctx)))
+        else:
+            pctx = py_ctx(op["ctx"], escd)
+            out.append(_guard(lambda: r.synthesize(pr(op["main"], escd), **pctx)))
+    return out
 
 
 def run_real(case, escd=False):
@@ -756,7 +902,16 @@ def coq_tpl(ns):
 def coq_item(it):
     if isinstance(it, str):
         return f"(IStr {coq_str(it)})"
-    return "(IDict " + clist([ctuple(coq_str(k), coq_str(v)) for k, v in it["d"]]) + ")"
+    if "d" in it:
+        return "(IDict " + clist([ctuple(coq_str(k), coq_str(v)) for k, v in it["d"]]) + ")"
+    if "i" in it:
+        return f"(IInt {cz(it['i'])})"
+    if "b" in it:
+        return f"(IBool {cbool(it['b'])})"
+    if "n" in it:
+        return "INone"
+    x = py_atom(it)               # float or tuple: str() and repr() are supplied pre-rendered
+    return f"(IOpaque {coq_str(str(x))} {coq_str(repr(x))})"
 
 
 def coq_value(v):
@@ -766,6 +921,13 @@ def coq_value(v):
         return f"(VInt {cz(v['i'])})"
     if "b" in v:
         return f"(VBool {cbool(v['b'])})"
+    if "n" in v:
+        return "VNone"
+    if "f" in v:
+        x = float(v["f"])
+        return f"(VOpaque {coq_str(str(x))} {cbool(bool(x))})"
+    if "t" in v:
+        return "(VTuple " + clist([coq_item(it) for it in v["t"]]) + ")"
     return "(VList " + clist([coq_item(it) for it in v["l"]]) + ")"
 
 
@@ -777,11 +939,9 @@ def loop_bound_names(case):
         for n in ns:
             if n[0] == "E":
                 names = {"item", "index", "first", "last"}
-                v = C.get(n[2])
-                if v and "l" in v:
-                    for it in v["l"]:
-                        if not isinstance(it, str):
-                            names |= {k for k, _ in it["d"]}
+                for it in (seq_items(C.get(n[2])) or []):
+                    if not isinstance(it, str) and "d" in it:
+                        names |= {k for k, _ in it["d"]}
                 for l in n[3]:
                     if l[0] == "V" and l[1] in names:
                         out.add(l[1])
@@ -818,7 +978,13 @@ class C12(Check):
     CASE_TYPE = "case"
     N_QUICK = 1200
     N_THOROUGH = 16000
-    RULE = ("HISTORIES of 1..4 synthesize() calls on ONE Ribosome (same registered templates and strict flag; a third of "
+    RULE = ("HISTORIES of 1..6 operations on ONE Ribosome: synthesize, translate(name) (registered or not), translate(mRNA "
+            "object not registered, own .name possibly a registered name, text possibly plain), create_template, "
+            "register_template(t) and register_template(t, name=other) incl. re-registration with different text; the "
+            "reference is always computed from the registry as it is at that moment. Values: str, int, bool, None, float "
+            "(incl. -0.0), lists and tuples of strings / string-valued dicts / ints / bools / floats / None / tuples, "
+            "incl. lists of items that compare equal but print differently (1, True, 1.0; 0, False, 0.0, -0.0; (1,), (True,)). "
+            "Of the synthesize-only histories (same registered templates and strict flag) a third of "
             "the multi-call histories is built so that an early call raises inside an include - strict missing variable or "
             "len() of an int in the included template, also one include level deeper - and a later call renders the same "
             "include with a good context); every call is judged on its own against the reference. Per call: templates generated from the documented grammar as ASTs (text, plain/optional/piped variables, {{.}}, "
@@ -837,8 +1003,11 @@ class C12(Check):
                   "renders exactly the single left-to-right expansion with values verbatim), c12_opacity (in the taint model no "
                   "scanner match of any pass ever covers a code point that did not come from the template: the (origin, pass) log "
                   "is empty, any outcome), c12_strict_loop_vars / c12_strict_unbound_is_error, c12_missing_plain_var_warned, "
-                  "c12_unknown_include_marker, c12_render_is_function_of_its_inputs (on one instance every call of a history has the "
-                  "outcome of the same call on a fresh instance). The pre-repair pipeline is kept behind a legacy switch with ten machine-checked "
+                  "c12_unknown_include_marker, c12_render_uses_current_registry (on one instance every operation of a history - "
+                  "registrations, synthesize, translate by name or of an mRNA object - answers a pure function of the registry at "
+                  "that moment, strict and the operation) with c12_registration_is_assignment. The value type of the theorems "
+                  "covers str, int, bool, None, lists and tuples of str / string-valued dict / int / bool / None items, and floats "
+                  "and tuple items as values whose str()/repr() is supplied pre-rendered by the harness. The pre-repair pipeline is kept behind a legacy switch with ten machine-checked "
                   "refutations. Model, taint model and Coq reference renderer are tied to the code / to an independent Python "
                   "reference renderer by evaluating them in Coq on every generated template/context the implementation rendered "
                   "(delimiter-free, adversarial, sentinel-bearing).")
@@ -859,6 +1028,9 @@ class C12(Check):
                    "dict-item keys are identifiers (a key containing braces can make the loop-body str.replace span an earlier value)",
                    "templates and values are otherwise ASCII",
                    "context variable names are identifiers other than template/self/sequence",
+                   "str()/repr() of floats and of tuples used as loop items are supplied by the harness (pre-rendered), truthiness of "
+                   "a float likewise; direct assignment r.templates[name] = ... and mutation of mRNA.sequence are not exercised "
+                   "(no such usage in the repo's code, tests or examples)",
                    "between calls a Ribosome keeps templates, filters, flags and two statistics counters; translate() reads "
                    "only templates/filters/strict (modelled instance state: templates, strict, a call counter); the counters "
                    "themselves are not observed",
@@ -872,12 +1044,12 @@ class C12(Check):
             keep = W([["T", "plain text"]], [], phase="adv" if i >= n // 2 else "free")
             for _try in range(20):
                 c = g.history()
-                if not (all(len(pr(cl["main"])) <= 150 for cl in calls_of(c))
+                if not (all(len(pr(cl.get("main") or cl.get("tpl") or [])) <= 150 for cl in calls_of(c))
                         and all(len(pr(t)) <= 150 for _n, t in c["templates"])):
                     continue
                 # keep what Coq has to evaluate small
                 try:
-                    txts = [x["text"] for x in run_history(c)]
+                    txts = [x["text"] for x in run_history(c) if x is not None]
                 except Exception:
                     txts = []
                 if any(t is not None and len(t) > MAX_OUTPUT for t in txts):
@@ -913,6 +1085,28 @@ class C12(Check):
              "calls": [{"main": [["T", "Summary "], ["G", "summary"]], "ctx": [["n", {"i": 5}]]},
                        {"main": [["T", "Summary "], ["G", "summary"]], "ctx": [["n", {"l": ["a", "b", "c"]}]]},
                        {"main": [["G", "count"]], "ctx": [["n", {"s": "xy"}]]}]},
+            # registry operations between renders; an unregistered plain mRNA whose own .name is a registered name
+            {"templates": [["greeting", [["T", "Welcome back, "], ["V", "user"], ["T", "!"]]],
+                           ["page", [["T", "== "], ["G", "greeting"], ["T", " =="]]]], "strict": False, "phase": "free",
+             "calls": [{"op": "translate", "name": "page", "ctx": [["user", {"s": "ann"}]]},
+                       {"op": "render_obj", "own": "greeting", "main": [["T", "plain text"]], "ctx": []},
+                       {"op": "translate", "name": "page", "ctx": [["user", {"s": "ann"}]]},
+                       {"op": "register", "name": "alias", "own": "page", "how": "register_as", "tpl": [["T", "static"]]},
+                       {"op": "translate", "name": "alias", "ctx": []},
+                       {"main": [["G", "page"], ["G", "alias"]], "ctx": []},
+                       {"op": "register", "name": "greeting", "own": "greeting", "how": "create", "tpl": [["T", "Hi "], ["O", "user"]]},
+                       {"op": "translate", "name": "page", "ctx": [["user", {"s": "bob"}]]},
+                       {"op": "translate", "name": "nope", "ctx": []}]},
+            # adjacent single-brace values that together spell a construct for a later pass
+            W([["O", "a"], ["O", "a"], ["T", "y"], ["O", "c"], ["O", "c"], ["T", " "],
+               ["E", " ", "xs", [["D"]]], ["T", "y}}"]],
+              [["a", {"s": "{"}], ["c", {"s": "}"}], ["y", {"s": "LEAK"}], ["xs", {"l": ["{", "{"]}]]),
+            # loop items that compare equal but print differently; None, floats, tuples
+            W([["E", " ", "xs", [["T", "["], ["D"], ["T", "]"]]], ["E", " ", "ys", [["V", "item"], ["T", ","]]],
+               ["V", "n"], ["O", "f"], ["P", "tp", "length"], ["V", "tp"]],
+              [["xs", {"l": [{"i": 1}, {"b": True}, {"f": 1.0}, {"i": 0}, {"b": False}, {"f": 0.0}, {"f": -0.0}, {"n": None}]}],
+               ["ys", {"t": [{"t": [{"i": 1}]}, {"t": [{"b": True}]}, {"t": []}]}],
+               ["n", {"n": None}], ["f", {"f": -0.0}], ["tp", {"t": [{"i": 1}]}]], phase="free"),
         ]
         return base + super().corpus_cases()
 
@@ -951,22 +1145,43 @@ class C12(Check):
     def run_impl(self, case):
         """the whole history on one instance (and, when some value carries braces, the same
         history with the braces neutralised on a second instance)"""
-        n = len(calls_of(case))
+        ops = calls_of(case)
         reals = run_history(case)
-        need_esc = any(not ctx_free(sub_case(case, k)) for k in range(n))
-        escs = run_history(case, True) if need_esc else [None] * n
+        need_esc = any(is_render(op) and not value_free_ctx(op["ctx"]) for op in ops)
+        escs = run_history(case, True) if need_esc else [None] * len(ops)
         obs, traces = [], []
-        for k in range(n):
-            o, t = self._run_call(sub_case(case, k), reals[k], escs[k])
+        for k, op in enumerate(ops):
+            if not is_render(op):
+                obs.append([7])
+                traces.append(None)
+                continue
+            sub = sub_case(case, k)
+            if sub is None:                      # translate() of an unregistered name
+                r = reals[k]
+                ok = bool(r["error"] and r["error"][0] == "unknown" and r["error"][1] == op["name"])
+                obs += [([5] + cps(op["name"])) if ok else [9], [], [], [], [0], [1]]
+                traces.append({"unknown": op["name"], "real": r})
+                continue
+            o, t = self._run_call(sub, reals[k], escs[k])
             obs += o
             traces.append(t)
         return obs, {"calls": traces}
 
     def coq_case(self, case):
         T = clist([ctuple(coq_str(n), coq_tpl(t)) for n, t in case["templates"]])
-        cls = clist([ctuple(coq_tpl(cl["main"]), clist([ctuple(coq_str(k), coq_value(v)) for k, v in cl["ctx"]]))
-                     for cl in calls_of(case)])
-        return ctuple(T, cls, cbool(case["strict"]))
+
+        def cctx(ctx):
+            return clist([ctuple(coq_str(k), coq_value(v)) for k, v in ctx])
+        items = []
+        for op in calls_of(case):
+            kind = op.get("op")
+            if kind == "register":
+                items.append(f"(OpRegister {coq_str(op['name'])} {coq_tpl(op['tpl'])})")
+            elif kind == "translate":
+                items.append(f"(OpTranslate {coq_str(op['name'])} {cctx(op['ctx'])})")
+            else:
+                items.append(f"(OpRender {coq_tpl(op['main'])} {cctx(op['ctx'])})")
+        return ctuple(T, clist(items), cbool(case["strict"]))
 
     # -- the property on the implementation ----------------------------------
     def monitor(self, case, obs, trace):
@@ -974,22 +1189,43 @@ class C12(Check):
         must equal the reference whatever earlier calls did (an earlier exception leaves no trace)"""
         if trace.get("harness_error") or trace.get("hang"):
             return Violation("C12/raises", f"translate did not return normally: {trace}")
-        n = len(calls_of(case))
-        for k in range(n):
+        ops = calls_of(case)
+        n = len(ops)
+        for k, op in enumerate(ops):
+            if not is_render(op):
+                continue
+            t = trace["calls"][k]
             sub = sub_case(case, k)
-            v = self._monitor_call(sub, trace["calls"][k])
+            if sub is None:
+                r = t["real"]
+                if not (r["error"] and r["error"][0] == "unknown"):
+                    return Violation("C12/unknown-template", f"operation {k + 1}: translate({op['name']!r}) of an unregistered "
+                                                             f"name gave {r} instead of ValueError('Unknown template')")
+                continue
+            if t["real"]["error"] and t["real"]["error"][0] == "unknown":
+                return Violation("C12/unknown-template", f"operation {k + 1}: translate({op.get('name')!r}) raised "
+                                                         f"'Unknown template' although the name is registered")
+            v = self._monitor_call(sub, t)
             if v is None:
                 continue
             if n > 1:
-                # does the same call pass on a fresh instance?  then the instance carried state over
+                # does the same render pass on a fresh instance holding the CURRENT registry?
                 fo, ft = self._run_call(sub, run_real(sub), run_real(sub, True) if not ctx_free(sub) else None)
                 if self._monitor_call(sub, ft) is None:
-                    before = [("raised " + str(t["real"]["error"])) if t["real"]["error"] else "rendered"
-                              for t in trace["calls"][:k]]
+                    before = []
+                    for j in range(k):
+                        tj = trace["calls"][j]
+                        if tj is None:
+                            o = ops[j]
+                            before.append(f"register {o['name']!r} ({o['how']}, mRNA.name={o['own']!r})")
+                        elif tj["real"]["error"]:
+                            before.append("raised " + str(tj["real"]["error"]))
+                        else:
+                            before.append("rendered" + (f" mRNA named {ops[j]['own']!r}" if ops[j].get("op") == "render_obj" else ""))
                     return Violation("C12/state-leak",
-                                     f"call {k + 1} of {n} on one Ribosome differs from the same call on a fresh instance "
-                                     f"(earlier calls: {before}): {v.what}")
-                v.what = f"call {k + 1} of {n}: " + v.what
+                                     f"operation {k + 1} of {n} on one Ribosome differs from the same render on a fresh "
+                                     f"instance with the current registry (earlier: {before}): {v.what}")
+                v.what = f"operation {k + 1} of {n}: " + v.what
             return v
         return None
 
@@ -1062,7 +1298,8 @@ class C12(Check):
     def nontrivial(self, case, obs, trace):
         if "calls" not in trace:
             return False
-        return any(self._nontrivial_call(sub_case(case, k), trace["calls"][k]) for k in range(len(calls_of(case))))
+        return any(self._nontrivial_call(sub_case(case, k), trace["calls"][k])
+                   for k, op in enumerate(calls_of(case)) if is_render(op) and sub_case(case, k) is not None)
 
     def _nontrivial_call(self, case, trace):
         if not ctx_clean(case):
@@ -1078,13 +1315,23 @@ class C12(Check):
     def classify(self, case, obs, trace):
         if "calls" not in trace:
             return ["harness-error"]
-        n = len(calls_of(case))
+        ops = calls_of(case)
+        n = len(ops)
         ks = ["calls=%d" % n]
-        errs = [bool(t["real"]["error"]) for t in trace["calls"]]
+        errs = [bool(t and t["real"]["error"]) for t in trace["calls"]]
         if any(errs[:-1]):
             ks.append("history:render-after-exception")
-        for k in range(n):
-            ks += self._classify_call(sub_case(case, k), trace["calls"][k])
+        for k, op in enumerate(ops):
+            if not is_render(op):
+                ks.append("op:register/" + op["how"] + ("/own-name-is-registered" if op["how"] == "register_as"
+                          and any(op["own"] == nm for nm, _ in registry_at(case, k)) else ""))
+                continue
+            ks.append("op:" + (op.get("op") or "synthesize"))
+            sub = sub_case(case, k)
+            if sub is None:
+                ks.append("translate-unknown-name")
+                continue
+            ks += self._classify_call(sub, trace["calls"][k])
         return sorted(set(ks)) if n > 1 else ks
 
     def _classify_call(self, case, trace):
@@ -1108,6 +1355,8 @@ class C12(Check):
         if "calls" in c:
             c["calls"] = common.shrink_list(c["calls"], lambda cs: len(cs) > 0 and pred({**c, "calls": cs}))
             if len(c["calls"]) > 1:
+                return c
+            if c["calls"][0].get("op") is not None:
                 return c
             c = {"templates": c["templates"], "strict": c["strict"], "phase": c.get("phase", "free"),
                  "main": c["calls"][0]["main"], "ctx": c["calls"][0]["ctx"]}
